@@ -69,6 +69,18 @@ pub fn strip_item_attrs(item: &mut syn::Item, stats: &mut Stats) {
             t.attrs.clear();
             t.vis = parse_quote!(pub);
         }
+        syn::Item::Trait(t) => {
+            t.attrs.clear();
+            t.vis = parse_quote!(pub);
+            for ti in t.items.iter_mut() {
+                match ti {
+                    syn::TraitItem::Const(c) => c.attrs.clear(),
+                    syn::TraitItem::Fn(f) => f.attrs.clear(),
+                    syn::TraitItem::Type(ty) => ty.attrs.clear(),
+                    _ => {}
+                }
+            }
+        }
         _ => {}
     }
 }
@@ -319,10 +331,46 @@ impl<'a> VisitMut for Norm<'a> {
     }
 
     fn visit_expr_mut(&mut self, e: &mut Expr) {
+        // N14: `for P in (LO..HI).rev() B`  ==>  `{ let __lo = LO; let mut __hi = HI; while __lo < __hi { __hi -= 1; let P = __hi; B } }`
+        // (definition of Rev<Range<_>>::next; Verus cannot use its Rev specs inside trait impls)
+        if let Expr::ForLoop(f) = e {
+            if f.label.is_none() {
+                if let Expr::MethodCall(mc) = &*f.expr {
+                    if mc.method == "rev" && mc.args.is_empty() {
+                        let inner = match &*mc.receiver {
+                            Expr::Paren(p) => &*p.expr,
+                            other => other,
+                        };
+                        if let Expr::Range(r) = inner {
+                            if let (Some(lo), Some(hi), syn::RangeLimits::HalfOpen(_)) = (&r.start, &r.end, &r.limits) {
+                                let pat = &f.pat;
+                                let stmts = &f.body.stmts;
+                                let new: Expr = parse_quote!({
+                                    let __lo = #lo;
+                                    let mut __hi = #hi;
+                                    while __lo < __hi {
+                                        __hi -= 1;
+                                        let #pat = __hi;
+                                        #(#stmts)*
+                                    }
+                                });
+                                *e = new;
+                                self.stats.bump("N14.rev_range_loop");
+                            }
+                        }
+                    }
+                }
+            }
+        }
         // loops are numbered in pre-order
         match e {
             Expr::While(w) => self.mark_loop(&mut w.body),
-            Expr::ForLoop(f) => self.mark_loop(&mut f.body),
+            Expr::ForLoop(f) => {
+                // name the ghost iterator (`for x in iter: e`) — specification syntax only
+                let ex = &f.expr;
+                *f.expr = parse_quote!(__zx_iter!(#ex));
+                self.mark_loop(&mut f.body)
+            }
             Expr::Loop(l) => self.mark_loop(&mut l.body),
             _ => {}
         }
